@@ -30,6 +30,30 @@ type chunkReader struct {
 	n     int64 // total length
 	pos   int64
 	chunk int // max bytes per Read (0 = as much as fits)
+	data  string // "pat" (default), "zero", "holes"
+	pss   int64
+}
+
+// c13Byte is byte i of the content class: a non-zero pattern, zeroes, or the pattern with every odd
+// physical sector zeroed
+func c13Byte(data string, tag int, i, pss int64) byte {
+	switch data {
+	case "zero":
+		return 0
+	case "holes":
+		if pss > 0 && (i/pss)%2 == 1 {
+			return 0
+		}
+	}
+	return fsx.ContentByte(tag, i)
+}
+
+func c13Content(data string, tag int, n, pss int64) []byte {
+	b := make([]byte, n)
+	for i := range b {
+		b[i] = c13Byte(data, tag, int64(i), pss)
+	}
+	return b
 }
 
 func (r *chunkReader) Read(p []byte) (int, error) {
@@ -44,7 +68,7 @@ func (r *chunkReader) Read(p []byte) (int, error) {
 		k = r.n - r.pos
 	}
 	for i := int64(0); i < k; i++ {
-		p[i] = fsx.ContentByte(r.tag, r.pos+i)
+		p[i] = c13Byte(r.data, r.tag, r.pos+i, r.pss)
 	}
 	r.pos += k
 	return int(k), nil
@@ -129,7 +153,7 @@ func c13Exec(s map[string]string) map[string]any {
 	// ---- write
 	rl := map[string]int64{"zero": 0, "minus1": psize - 1, "exact": psize, "plus1": psize + 1}[s["rlen"]]
 	ch := map[string]int{"whole": 0, "one": 1, "c513": 513, "pssp1": int(pss) + 1}[s["chunk"]]
-	rd := &chunkReader{tag: 7, n: rl, chunk: ch}
+	rd := &chunkReader{tag: 7, n: rl, chunk: ch, data: s["data"], pss: pss}
 	p1 := memdev.Range{Off: start * lss, Len: psize}
 	d.ResetLog()
 	d.FailOutside = []memdev.Range{p1}
@@ -156,11 +180,11 @@ func c13Exec(s map[string]string) map[string]any {
 	if k > psize {
 		k = psize
 	}
-	w["stored"] = bytes.Equal(d.Bytes(p1.Off, k), fsx.Content(7, int(k)))
+	w["stored"] = bytes.Equal(d.Bytes(p1.Off, k), c13Content(s["data"], 7, k, pss))
 	ev["w"] = w
 	// ---- read (fill the partition with known content first so that every byte is distinctive)
 	d.FailOutside = nil
-	d.WriteAt(fsx.Content(9, int(psize)), p1.Off)
+	d.WriteAt(c13Content(s["data"], 9, psize, pss), p1.Off)
 	d.ResetLog()
 	cw := &capWriter{limit: psize + 3*pss}
 	r := map[string]any{"res": "ok"}
@@ -200,7 +224,7 @@ func c13Exec(s map[string]string) map[string]any {
 func c13Events(c *core.Ctx) (tuples []map[string]string, events []map[string]any, ok bool) {
 	maxDev := 3
 	if c.Tier == "thorough" {
-		maxDev = 7
+		maxDev = 8
 	}
 	cfg := fmt.Sprintf("SPECIFICATION Spec\nCONSTANT MaxDev = %d\nINVARIANT Emit\nCHECK_DEADLOCK FALSE\n", maxDev)
 	gen, err := tlc.Run(tlc.Opts{Module: "PartIO_Gen", Config: "gen.cfg", Workers: 1, Files: map[string][]byte{"gen.cfg": []byte(cfg)}, Timeout: 15 * time.Minute})
@@ -231,7 +255,7 @@ func c13Events(c *core.Ctx) (tuples []map[string]string, events []map[string]any
 }
 
 func C13(c *core.Ctx) {
-	c.Rule = "case = one geometry tuple of PartIO.tla (GPT/MBR x start class incl. start*sector >= 2^32 and start = 2^32-1 sectors x size x logical 512/4096 x physical 512/4096 (pss != lss) x reader length {0,size-1,size,size+1} x chunking {whole,1 byte,513,pss+1}), all tuples within MaxDev deviations of the base tuple (quick 3, thorough 7 = full product), enumerated by TLC; every tuple is non-trivial (distinct key = tuple)"
+	c.Rule = "case = one geometry tuple of PartIO.tla (GPT/MBR x start class incl. start*sector >= 2^32 and start = 2^32-1 sectors x size x logical 512/4096 x physical 512/4096 (pss != lss) x reader length {0,size-1,size,size+1} x chunking {whole,1 byte,513,pss+1} x content {non-zero pattern, all zeroes, pattern with zeroed physical sectors} streamed onto non-zero previous content), all tuples within MaxDev deviations of the base tuple (quick 3, thorough 8 = full product), enumerated by TLC; every tuple is non-trivial (distinct key = tuple); plus the composition behaviours of Disk.tla (raw clause of Disk_Trace: WritePartitionContents / ReadPartitionContents / CopyPartitionRaw between three slots of one GPT or MBR disk, interleaved with table rewrites and filesystem traffic)"
 	c.Assumptions = []string{"sparse pattern-filled memdev; byte counts are decimal strings for TLC", "CopyPartitionRaw is exercised with a target at least as large as the source"}
 	tuples, events, ok := c13Events(c)
 	if !ok {
@@ -270,6 +294,8 @@ func C13(c *core.Ctx) {
 	}
 	c.TracesValidated = int64(len(events) - len(tv.Mismatches))
 	c.Extra["tuples"] = len(tuples)
+	// the composition (Disk.tla): raw contents written, read and copied between three slots of one disk
+	dkRunAll(c, "C13")
 }
 
 func c13Sig(which string, s map[string]string, ev map[string]any) string {
